@@ -598,7 +598,7 @@ func VerifScan(c *Conversation, needles [][]byte) (hits []VerifHit, total int) {
 			}
 			seen[v.Pointer()] = true
 			if v.Type().Elem() == bigIntType {
-				bi := v.Interface().(*big.Int)
+				bi := (*big.Int)(unsafe.Pointer(v.Pointer()))
 				check(bi.Bytes(), path, nil, bi)
 				return
 			}
